@@ -164,6 +164,7 @@ func (r *runner) lifeLines(s *scen, lines []string, stopAtTimeout bool) []string
 			r.st.Wire[b.wireKind]++
 			r.st.Filed[b.f["filed"][:1]]++
 			r.st.IdEnc[b.f["idenc"]]++
+			r.st.Branches[b.branch]++
 			r.emit("pkt "+b.sym, func() string {
 				stage := s.lifeStage()
 				m := decode(b.wire)
